@@ -38,7 +38,10 @@ type App struct {
 	// SharedCode makes GetCode hand out the same backing slice on every call (as an in-memory
 	// resource naturally would) instead of a fresh exact-capacity copy; used by C19 only.
 	SharedCode bool
-	encoded    map[string][]byte
+	// CodeSlack gives every code slice spare capacity behind its length (a slice built by appends
+	// naturally has some); the spare bytes are filled with 0xEE so that a write into them is visible.
+	CodeSlack int
+	encoded   map[string][]byte
 }
 
 func New(name string) *App {
@@ -75,7 +78,16 @@ func (a *App) Code(name string) ([]byte, bool) {
 	if a.encoded == nil {
 		a.encoded = map[string][]byte{}
 		for k, n := range a.Nodes {
-			a.encoded[k] = codec.Encode(n.Code)
+			e := codec.Encode(n.Code)
+			if a.CodeSlack > 0 {
+				b := make([]byte, len(e)+a.CodeSlack)
+				copy(b, e)
+				for i := len(e); i < len(b); i++ {
+					b[i] = 0xEE
+				}
+				e = b[:len(e)]
+			}
+			a.encoded[k] = e
 		}
 	}
 	b, ok := a.encoded[name]
